@@ -3,6 +3,7 @@
 package corerad
 
 import (
+	"fmt"
 	"context"
 	"errors"
 	"testing"
@@ -21,6 +22,7 @@ type lstRead struct {
 
 // runListen drives the real (*listener).Listen over a script of ReadFrom results.
 func runListen(t *testing.T, out *vfh.Out, script []lstRead) {
+	out.Pending(fmt.Sprintf("runListen script=%+v", script))
 	synctest.Test(t, func(t *testing.T) {
 		mm := NewMetrics(metricslite.NewMemory(), "v", time.Time{}, nil, nil)
 		conn := newVfConn()
